@@ -329,7 +329,32 @@ fn main() {
     for p in spec["lexers"].as_array().cloned().unwrap_or_default() {
         let id = p["id"].as_u64().unwrap();
         let lsrc = std::fs::read_to_string(format!("{here}/gen/x{id}.l")).unwrap();
-        let rt = LRNonStreamingLexerDef::<LT>::from_str(&lsrc);
+        let rt = match p["settings"]["builder_flags"].as_object() {
+            None => LRNonStreamingLexerDef::<LT>::from_str(&lsrc),
+            Some(fl) => {
+                // flags given through the builder: the run-time counterpart is new_with_options
+                let mut f = UNSPECIFIED_LEX_FLAGS;
+                for (k, v) in fl {
+                    match k.as_str() {
+                        "dot_matches_new_line" => f.dot_matches_new_line = v.as_bool(),
+                        "multi_line" => f.multi_line = v.as_bool(),
+                        "octal" => f.octal = v.as_bool(),
+                        "posix_escapes" => f.posix_escapes = v.as_bool(),
+                        "allow_wholeline_comments" => f.allow_wholeline_comments = v.as_bool(),
+                        "case_insensitive" => f.case_insensitive = v.as_bool(),
+                        "swap_greed" => f.swap_greed = v.as_bool(),
+                        "ignore_whitespace" => f.ignore_whitespace = v.as_bool(),
+                        "unicode" => f.unicode = v.as_bool(),
+                        "size_limit" => f.size_limit = v.as_u64().map(|n| n as usize),
+                        "dfa_size_limit" => f.dfa_size_limit = v.as_u64().map(|n| n as usize),
+                        "nest_limit" => f.nest_limit = v.as_u64().map(|n| n as u32),
+                        _ => {}
+                    }
+                }
+                bump("lexer-only:flags-through-builder", &mut classes);
+                LRNonStreamingLexerDef::<LT>::new_with_options(&lsrc, f)
+            }
+        };
         let Some(f) = lexer_fns(id) else {
             bump("lexer-not-built", &mut classes);
             if rt.is_ok() {
